@@ -76,6 +76,7 @@ type succ struct {
 	Key  string `json:"key"`
 	Viol string `json:"viol,omitempty"`
 	Herr string `json:"herr,omitempty"`
+	Term bool   `json:"term,omitempty"` // terminal: judged, but not explored further
 }
 
 // TaskResult is what a generic (non-BFS) task returns.
@@ -140,6 +141,7 @@ func expandState(sp Space, path []Op, wantInit bool, noTrace bool) workResp {
 		resp.OpsRun += len(path) + 1
 		s := succ{Op: op}
 		s.Key, err = stepAndCheck(sp, w, op, noTrace, parentTxt)
+		s.Term = w.FormerOnly != nil
 		if err != nil {
 			if v, ok := err.(*Violation); ok {
 				s.Viol = v.Msg
@@ -274,6 +276,9 @@ type Found struct {
 	Spec Spec   `json:"spec"`
 	Path []Op   `json:"path"`
 	Msg  string `json:"msg"`
+	// Kind/Data describe how to re-execute violations that are not operation histories
+	Kind string `json:"kind,omitempty"`
+	Data any    `json:"data,omitempty"`
 }
 
 // Stats are the counters reported in the evidence file.
@@ -400,7 +405,7 @@ func Explore(pool *Pool, spec Spec, deadline time.Time, maxViol int) (Stats, []F
 				seen[r.resp.InitKey] = true
 				st.States++
 				if r.resp.InitViol != "" {
-					found = append(found, Found{spec, r.it.path, r.resp.InitViol})
+					found = append(found, Found{Spec: spec, Path: r.it.path, Msg: r.resp.InitViol})
 				}
 			}
 			st.OpsRun += r.resp.OpsRun
@@ -413,13 +418,16 @@ func Explore(pool *Pool, spec Spec, deadline time.Time, maxViol int) (Stats, []F
 				}
 				if s.Viol != "" {
 					if len(found) < maxViol {
-						found = append(found, Found{spec, p, s.Viol})
+						found = append(found, Found{Spec: spec, Path: p, Msg: s.Viol})
 					}
 					continue // do not explore beyond a violating state
 				}
 				if !seen[s.Key] {
 					seen[s.Key] = true
 					st.States++
+					if s.Term {
+						continue
+					}
 					next = append(next, item{p})
 					if len(p) > len(st.Deepest) {
 						st.Deepest = p
